@@ -10,61 +10,61 @@ CLAIMS = {
  "C01": ("determinism lint over consensus-reachable Haqq code (scope by interface-implementation roots): order-insensitive map ranges, no clock/random/env/CPU-count/goroutines/channels/locks, no package-variable writes, floats only into telemetry, complete module orders, TPS counter observes only, node-local app options used only under IsCheckTx, maps.Keys results sorted",
          "trusted: determinism of cosmos-sdk, CometBFT, go-ethereum; totality of sort comparators. Not decided: that two replicas actually produce equal app hashes (run-time).",
          "static analysis: call-graph reachability from interface-derived consensus roots + AST/SSA determinism lint + interprocedural taint of node-local configuration"),
- "C02": ("who-may-mint for the evm module account; flush (StateDB.Commit) before every precompile handler; Commit/SetAccount/SetBalance premise and mint-send / send-burn pairing; every bank-moving precompile effect is mirrored into the StateDB on every success path with caller != origin; precompile address tables agree and are blocked",
-         "trusted: frozen table of which SDK msg-server methods move bank balances (cosmos-sdk v0.47.12-evmos.2, ibc-go v7.4.0, asserted against go.mod); geth moves value only through StateDB. Not decided: the per-account balance equation and correctness of mirrored amounts.",
+ "C02": ("who-may-mint for the evm module account; flush (StateDB.Commit) before every precompile handler; Commit writes every journal-dirty account, SetAccount always sets the balance, SetBalance mints/burns exactly the delta paired with the matching send, zero-amount balance changes journal nothing; every bank-moving precompile effect is mirrored into the StateDB on every success path with caller != origin; precompile address tables agree and are blocked",
+         "trusted: frozen table of which SDK msg-server/keeper methods move bank balances (confirmed by reading cosmos-sdk v0.47.12-evmos.2 and ibc-go v7.4.0; a dependency upgrade that makes a further method move balances is not noticed until the table is extended); geth moves value only through StateDB. Not decided: the per-account balance equation and correctness of mirrored amounts.",
          "static analysis: SSA CFG must-pass-through with bypass-edge deletion, who-may-call tables, def-use slices, table agreement"),
- "C03": ("ante chains contain signature/nonce decorators in the required partial order; the eth signature decorator reaches next only through signer.Sender with the keeper's chain id and rejects unprotected txs unless allowed; nonce equality precedes the sequence increment; EIP-712 verification returns nil only after chain-id, pubkey, fee-payer and secp256k1 checks; MsgEthereumTx.From is written only by the signature verifier",
+ "C03": ("ante chains contain signature/nonce decorators in the required partial order; the eth signature decorator reaches next only through signer.Sender with the keeper's chain id and rejects unprotected txs unless allowed; nonce equality precedes the sequence increment; EIP-712 verification returns nil only after chain-id, pubkey, fee-payer and secp256k1 checks; MsgEthereumTx.From is written only by the signature verifier; ethsecp256k1 verification goes through crypto.VerifySignature over the Keccak hash; the EIP-712 sign-doc decoders read every field of SignDoc/TxBody/AuthInfo/Fee (today: known findings for fee granter/payer)",
          "trusted: go-ethereum signers, secp256k1, apitypes EIP-712 hashing, SDK SigVerificationDecorator. Not decided: that the signed hash covers every field (encoding correctness), malleability.",
          "static analysis: ordered table of resolved decorator types, SSA guard-edge must-pass-through, field-write ownership"),
  "C04": ("every precompile transaction handler reaches its Cosmos-side effect only where the calldata-named account equals signer or caller; staking/ICS-20 effects are preceded by a grant check, followed by the grant update and pass Authorization.Accept unless caller==origin; grants written by approve/revoke/increase/decrease use evm.Origin as granter; check and update address the same grant",
          "trusted: SDK/ibc-go Authorization.Accept arithmetic. Not decided: that a limited grant is reduced by exactly the amount.",
          "static analysis: SSA CFG reachability with equality-edge deletion, wrapper summaries, interprocedural root tracing of arguments"),
- "C05": ("a journal entry restoring the SDK context must exist and be registered before precompile dispatch (today: known findings); ApplyTransaction executes message and hooks on the cache context and commits it only when the EVM did not fail and hooks succeeded; hooks are installed; every write to revertible StateDB state is journaled and every entry's Revert restores from its recorded fields",
+ "C05": ("a journal entry restoring the SDK context must exist and be registered before precompile dispatch (today: known findings); ApplyTransaction always executes message and hooks on a cache context and commits it only when the EVM did not fail and hooks succeeded; hooks are installed; every write to revertible StateDB state is journaled and every entry's Revert restores from its recorded fields",
          "trusted: geth calls Snapshot/RevertToSnapshot around each frame; sdk CacheContext semantics.",
          "static analysis: type/implementation enumeration, SSA CFG must-pass-through, write-site ownership over struct fields"),
- "C06": ("route switch = exactly three extension options mapped to their chain constructors, anything else fails; Cosmos chains start with Reject+AuthzLimiter(MsgEthereumTx); extension-option cardinality checks; every eth-route decorator accepts only MsgEthereumTx; recursive authz scan is exhaustive over nested-message carriers, recurses with the inner flag and a level cap; the app installs this handler",
+ "C06": ("route switch = exactly three extension options mapped to their chain constructors, anything else fails; Cosmos chains start with Reject+AuthzLimiter(MsgEthereumTx); extension-option cardinality checks; every eth-route decorator accepts only MsgEthereumTx; recursive authz scan is exhaustive over nested-message carriers, recurses with the inner flag and a level cap; the app installs this handler; in every Haqq decorator each call of next is preceded by the GetMsgs scan except over that decorator's tabled bypass edges",
          "trusted: baseapp runs the ante handler before execution; gov/ICA execute inner messages with module signers.",
          "static analysis: constant-case tables from SSA, decorator-order tables, type-assert edge reachability, type enumeration over the import closure"),
- "C07": ("fee-floor decorators are present and ordered before fee deduction on all three routes; next is reachable only through the fee >= required comparison (bypass: zero min price / simulate); fee cap >= base fee precedes success; every successful ApplyTransaction path refunds msg.Gas()-res.GasUsed from the fee collector to the sender; gas used depends on the min-gas multiplier, the limit and the EVM leftover",
+ "C07": ("fee-floor decorators are present and ordered before fee deduction on all three routes; next is reachable only through the fee >= required comparison (bypass: zero min price / simulate); fee cap >= base fee precedes success; every successful ApplyTransaction path refunds msg.Gas()-res.GasUsed from the fee collector to the sender; gas used depends on the min-gas multiplier, the limit and the EVM leftover, the min-gas floor is applied last; EthGasConsumeDecorator deducts exactly the verified fee from msg.GetFrom(); EffectiveGasPrice has go-ethereum's shape",
          "trusted: sdk.Dec/big.Int arithmetic. Not decided: sender_delta == gasUsed x price == collector_delta, gasUsed <= gasLimit (numeric).",
          "static analysis: decorator-order tables, SSA guard-edge must-pass-through, def-use dependence"),
- "C08": ("ClawbackVestingAccount implements the SDK VestingAccount interface the bank keeper consults; SDK staking msg server is only constructed by the Haqq wrapper and the wrapper is what the module and the precompile use; Delegate/CreateValidator check the unvested amount before the embedded call; the eth vesting decorator is in the chain before fee deduction; no Haqq code writes bank balances around the bank keeper",
+ "C08": ("ClawbackVestingAccount implements the SDK VestingAccount interface the bank keeper consults; SDK staking msg server is only constructed by the Haqq wrapper and the wrapper is what the module and the precompile use; Delegate/CreateValidator check the unvested amount before the embedded call; the eth vesting decorator is in the chain before fee deduction; vested-coin delegation takes its amount from the message's own schedule; every EndTime store depends on both the lockup and the vesting periods",
          "trusted: cosmos-sdk bank keeper enforces LockedCoins on every debit. Not decided: the inequality balance >= locked over histories; delegation-tracking arithmetic.",
          "static analysis: types.Implements, who-may-call tables, SSA must-pass-through, decorator-order table"),
- "C09": ("clawback, funder update and grant merge happen only after comparing with the recorded funder; transferClawback stores the updated account and sends exactly the coins computed by ComputeClawback to the destination; FunderAddress is written only by those functions",
+ "C09": ("clawback, funder update and grant merge happen only after comparing with the recorded funder; transferClawback stores the updated account and sends exactly the coins computed by ComputeClawback to the destination; FunderAddress is written only by those functions; addGrant stores all five merged schedule fields on every success path; ReadSchedule/ReadPastPeriodCount treat a period ending exactly at the read time as ended and handle both limits up front",
          "Not decided (declared not applicable to this technique): all schedule arithmetic - ReadSchedule monotonicity/limits, Disjunct/Conjunct exactness, vested+unvested=original.",
          "static analysis: SSA guard-edge must-pass-through, def-use same-source, field-write ownership"),
  "C10": ("each of the four conversion functions escrows/burns and mints/unescrows the same amount value on every success path and checks the balance post-condition; erc20 module-account mint/burn only at the confirmed sites; no failure branch returns a nil-wrapped error; IBC callbacks convert only through ConvertCoin and surface its error as an error acknowledgement; hook mint must be escrow-verified (today: known finding)",
          "trusted: EVM execution of the ERC20 contract, bank keeper. Not decided: the backing equation over histories against arbitrary bytecode.",
          "static analysis: SSA event pairing (must-pass-through both directions), def-use same-source, who-may-mint table, nilness-based wrap(nil) detection"),
- "C11": ("Liquidate and Redeem pair escrow<->mint and burn<->release of the message amount on every success path, update the denom schedule store and re-apply the vesting schedule; only these functions mint/burn liquid denoms; denom store writers are the keeper's own",
+ "C11": ("Liquidate and Redeem pair escrow<->mint and burn<->release of the message amount on every success path, update the denom schedule store and re-apply the vesting schedule; only these functions mint/burn liquid denoms; denom store writers are the keeper's own; the denom store records the schedule it is handed unmodified; CurrentPeriodShift uses the same boundary convention as ReadPastPeriodCount",
          "Not decided: per-period exactness of SubtractAmountFromPeriods, 'nothing unlocks earlier' (schedule arithmetic).",
          "static analysis: SSA event pairing, def-use same-source, who-may-call tables"),
  "C12": ("ledger stores are written only by the keeper's setters from Fund/TransferOwnership/genesis; Fund escrows before any ledger write and pairs each credit with the total update of the same coin; no stale write-back over a possibly-aliased key; TransferOwnership credits exactly its amount parameter, touches only owner/newOwner and never the total; handlers validate first",
          "trusted: sdk.Coins arithmetic. Not decided: the numeric sum(holders)=total=module balance over histories.",
          "static analysis: who-may-call/store-write ownership, SSA event pairing, lost-update (stale read/write-back) detection on keyed ledgers"),
- "C13": ("only MintAndAllocate mints for the coinomics account and only under the enable flag; nothing is minted on the first block after activation; the minted coin is the coin sent to the fee collector; the amount depends on bonded tokens, coefficient, block time, previous timestamp, max supply and supply; the timestamp is updated; minting is switched off only on the cap branch",
-         "Not decided: the formula, rounding, leap-year length, cap arithmetic (numeric).",
+ "C13": ("only MintAndAllocate mints for the coinomics account and only under the enable flag; nothing is minted on the first block after activation; the minted coin is the coin sent to the fee collector; the amount depends on bonded tokens, coefficient, block time, previous timestamp, max supply and supply; the timestamp is updated; minting is switched off only on the cap branch where the amount becomes maxSupply - supply; the block mint is rounded one way only; the block time enters only as a timestamp or through Year() and a hand-written leap predicate uses exactly {4,100,400}; while disabled EndBlocker forgets the last timestamp",
+         "Not decided: the formula itself, the value of the rounding and of the two year-length constants, the cap as a numeric bound.",
          "static analysis: who-may-mint table, SSA guard-edge must-pass-through, def-use dependence"),
  "C14": ("BurnCoins override redirects exactly gov/bonded/not-bonded, sends the same coins to the distribution account and adds DecCoins(amounts) to the fee pool on every success path, never reaches the embedded burn there and always elsewhere; staking and gov keepers are built with the overriding keeper",
          "trusted: SDK SendCoinsFromModuleToModule and DecCoins.Add. Not decided: numeric equality of pool growth.",
          "static analysis: switch-constant table, SSA CFG must-pass-through per branch, def-use dependence, static types of wiring arguments"),
- "C15": ("each Haqq keeper opens only its own module's store key (traced to NewHaqq), with tabled exceptions; Haqq code changes balances only through bank keeper API methods; mint/burn authority per module account is tabled; invariants are registered and crisis runs first in EndBlock",
+ "C15": ("each Haqq keeper opens only its own module's store key (traced to NewHaqq), with tabled exceptions; Haqq code changes balances only through bank keeper API methods; mint/burn authority per module account is tabled; invariants are registered and crisis runs first in EndBlock; the fee-pool record is written together with the coin move (same rule code as C14 R2); the EVM balance write-back mints/burns exactly the delta, writes every dirty account and journals nothing for zero amounts (same rule code as C02 R3)",
          "trusted: the SDK invariants themselves. Not decided: that the invariants hold after every block (run-time).",
          "static analysis: store-key provenance tracing, who-may-call tables, module-order table"),
- "C16": ("per wired precompile: ABI functions = Run switch cases, IsTransaction is exactly the set of state-changing handlers; each transaction handler dispatches to the tabled native message-server method with the decoder's message unmodified, the module's own message server, and a decoder whose message depends on the address it returns; SDK gas is charged to the EVM contract on every success path and the meter is limited by contract gas",
+ "C16": ("per wired precompile: ABI functions = Run switch cases, IsTransaction is exactly the set of state-changing handlers; each transaction handler dispatches to the tabled native message-server method with the decoder's message unmodified, the module's own message server, and a decoder whose message depends on the address it returns; SDK gas is charged to the EVM contract on every success path and the meter is limited by contract gas; closures that query handlers pass to keeper Iterate* never cut the iteration short",
          "trusted: SDK message servers implement the native messages; go-ethereum abi decoding. Not decided: equality of resulting stores/outputs and query results with the native paths.",
          "static analysis: table agreement (embedded ABI JSON vs switch constants vs classification), def-use provenance of the message argument, SSA must-pass-through for gas"),
- "C17": ("base fee has a single consensus writer (BeginBlock) that stores exactly CalculateBaseFee's result; block gas wanted is written only in EndBlock/InitGenesis and depends on transient gas wanted, the min-gas multiplier and the block gas meter; CalculateBaseFee writes no state and its result depends on all EIP-1559 inputs",
+ "C17": ("base fee has a single consensus writer (BeginBlock) that stores exactly CalculateBaseFee's result; block gas wanted is written only in EndBlock/InitGenesis and depends on transient gas wanted, the min-gas multiplier and the block gas meter; EndBlock stores on every path; CalculateBaseFee writes no state, its result depends on all EIP-1559 inputs and its three branches have the EIP-1559 shape (copy / Add(parent, max(delta,1)) / max(parent-delta, MinGasPrice))",
          "Not decided (declared not applicable to this technique): the EIP-1559 function itself, its bounds and monotonicity.",
          "static analysis: who-may-call tables, def-use dependence"),
- "C18": ("per transaction type the proto<->geth field maps are exhaustive in both directions (every struct field assigned / read, through getters), Copy covers every field, NewTxDataFromTx covers every tx type with a TxData implementation, MsgEthereumTx.Hash is only written from tx.Hash()",
+ "C18": ("per transaction type the proto<->geth field maps are exhaustive in both directions (every struct field assigned / read, through getters), Copy covers every field, NewTxDataFromTx covers every tx type with a TxData implementation, MsgEthereumTx.Hash is only written from tx.Hash() and compared in ValidateBasic; fee figures depend on the right fields with a single definition of the effective gas price; access-list conversions allocate a fresh key slice per tuple",
          "Not decided: hash/sender/field equality under encode->decode (run-time round trip).",
          "static analysis: struct-field coverage tables over composite literals and field accesses, field-write ownership"),
- "C19": ("per Haqq module the GenesisState fields produced by ExportGenesis equal the fields consumed by InitGenesis; every store prefix written at run time is read on export and written on import (or tabled as derived); all modules are in the InitGenesis order and exported through the manager",
+ "C19": ("per Haqq module the GenesisState fields produced by ExportGenesis equal the fields consumed by InitGenesis; every store prefix written at run time is read on export and written on import (or tabled as derived); import of a field is not conditional on another field; evm accounts export code and storage; the app exports through the module manager",
          "Not decided: query-level equality of re-imported state, nested-field fidelity.",
          "static analysis: struct-field symmetry tables, call-graph reachability to store-prefix users"),
- "C20": ("process-local state reachable from the app (keeper/precompile fields, package variables) is written only during construction or by the idempotent chain-id re-derivation; the run-time precompile registry mutator is unreachable from consensus roots; stores are mounted and loaded and the precompile registry is installed on every constructor path",
+ "C20": ("process-local state (keeper/precompile/decorator fields, maps and concurrent containers held by them) is written in consensus scope only by the idempotent chain-id re-derivation; the run-time precompile registry mutator is unreachable from consensus roots; stores are mounted and loaded and the precompile registry is installed on every constructor path",
          "trusted: CometBFT/IAVL/store behaviour across restart.",
          "static analysis: field-write ownership against consensus reachability, call-graph unreachability, constructor must-pass-through"),
 }
@@ -88,7 +88,7 @@ for p in PROPS:
             "quick_cmd": "./run.sh %s quick" % pid,
             "thorough_cmd": "./run.sh %s thorough" % pid,
             "evidence_file": "/verif/evidence/%s.json" % pid,
-            "replay_cmd_template": "cat {path} && ./run.sh %s quick" % pid,
+            "replay_cmd_template": "cat {path} && /verif/bin/haqqcheck -explain {path}",
             "engine": "haqqcheck",
             "level_claimed": {"category": "other",
                               "text": "Static analysis decides these structural clauses (necessary conditions of the property) on every run for every path/call site/table entry of the current tree: " + claim + ". It decides the clauses, not the run-time behaviour.",
